@@ -327,5 +327,5 @@ func TestVerif_C04(t *testing.T) {
 	prop := c04Prop(t, k)
 	k.Regress(t, func(sub string, raw json.RawMessage) error { return verifkit.Decode(raw, prop) })
 	verifkit.Enumerate(k, t, "path-x-forwarding-x-lifetime-matrix", true, c04Matrix, prop)
-	verifkit.Rapid(k, t, "forwarding-flip-histories", k.N(1500, 60000), c04Gen, prop)
+	verifkit.Rapid(k, t, "forwarding-flip-histories", k.N(1500, 300000), c04Gen, prop)
 }
